@@ -137,11 +137,12 @@ def run(ctx):
 META = {
     'technique': 'static analysis: symbolic value analysis of the delegation call (bound arguments, captured closure values) '
                  'against a reference definition per profile type and smearing flag (AGREE/FORMULA), interval check (RANGE)',
-    'level': 'Decides from the source that the helper delegates exactly once to general injection with the linear path, constant '
-             'time profile, unit bandpass, the named frequency profile constructed from the width (voigt with (w, w)), the smearing '
-             'flag, max(1, ceil(|drift|/unit drift)) sub-steps and a bounding range whose width/drift margins are rounded outward '
-             '(never truncated to zero), and that unknown profile names are rejected. Pixelwise equality with the general signal is '
-             'not decided.',
+    'level': 'Decides from the source that the helper delegates exactly once to general injection with the linear path, '
+             'constant time profile, unit bandpass, the named frequency profile constructed from the width (voigt with (w, '
+             'w)), the smearing flag, max(1, ceil(|drift|/unit drift)) sub-steps and a bounding range whose width/drift '
+             'margins are rounded outward (never truncated to zero), and that unknown profile names are rejected. Pixelwise '
+             "equality with the general signal is not decided. The bounding box is required to span the path's excursion over "
+             "the frame's own time axis (ts[0] .. ts[-1]), not over 0 .. (tchans-1)*dt.",
     'note': 'Real arithmetic; closures compared by defining function and captured values; the profile constructors themselves are '
             'checked under C01.',
 }
